@@ -158,3 +158,67 @@ func vItoa(n int) string {
 	}
 	return s
 }
+
+func vIntP(v int) *int { return &v }
+
+func vAtomCiphertext(c *vCtx, degree, level int, name string) *Ciphertext {
+	ct := NewCiphertext(c.Params, degree, level)
+	r := c.Params.RingQ().AtLevel(level)
+	for i := range ct.Value {
+		vFillAtoms(r, ct.Value[i], name+string(rune('0'+i)), vUniform)
+	}
+	ct.IsNTT = c.Params.NTTFlag()
+	return ct
+}
+
+func vDecrypt(c *vCtx, d *Decryptor, ct *Ciphertext) *Plaintext {
+	pt := NewPlaintext(c.Params, ct.Level())
+	d.Decrypt(ct, pt)
+	return pt
+}
+
+// vNoiseBound: log2 bound used by the native runs.  With an auxiliary modulus or power-of-two digits the key-switch
+// noise is a few bits; with plain RNS digits and no P it is of the size of the largest prime (q_i * N * sigma).
+func vNoiseBound(c *vCtx, evkp EvaluationKeyParameters) int {
+	if c.Params.MaxLevelP() < 0 && (evkp.BaseTwoDecomposition == nil || *evkp.BaseTwoDecomposition == 0) {
+		return 58
+	}
+	return 40
+}
+
+
+func VerifSetup_AutIndex(n int, nthRoot, galEl uint64) []uint64 {
+	idx, err := ring.AutomorphismNTTIndex(n, nthRoot, galEl)
+	if err != nil {
+		panic(err)
+	}
+	return idx
+}
+
+// vApplyAut applies sigma_g to a polynomial (NTT domain: slot permutation by the index table computed natively
+// from the definition; coefficient domain: X^i -> +-X^{i*g mod N}).
+func vApplyAut(r *ring.Ring, p ring.Poly, galEl uint64, isNTT bool) ring.Poly {
+	out := r.NewPoly()
+	if isNTT {
+		idx := VerifSetup_AutIndex(r.N(), r.NthRoot(), galEl)
+		for k := range r.SubRings[:r.Level()+1] {
+			for j := 0; j < r.N(); j++ {
+				out.Coeffs[k][j] = p.Coeffs[k][idx[j]]
+			}
+		}
+		return out
+	}
+	n := uint64(r.N())
+	for k, s := range r.SubRings[:r.Level()+1] {
+		for i := uint64(0); i < n; i++ {
+			e := (i * galEl) & (2*n - 1)
+			if e < n {
+				out.Coeffs[k][e] = p.Coeffs[k][i]
+			} else {
+				out.Coeffs[k][e-n] = s.Modulus - p.Coeffs[k][i]
+			}
+		}
+	}
+	return out
+}
+
